@@ -1,4 +1,5 @@
 """C01 — EPG states are the Fourier coefficients of a Bloch isochromat ensemble."""
+import json
 import numpy as np
 from vlib import core, prog, tie
 
@@ -101,9 +102,90 @@ def simulate_probe(p):
     return complex(np.ravel(f0)[0]), complex(np.ravel(z0)[0])
 
 
+def tse_reference(a, ph, tau, T1, T2, g):
+    """T(a,ph) S(1) E(tau,T1,T2,g) T(2a,ph+30) S(1) E(...) on N=7 Bloch isochromats -> Fourier coefficients k=-2..2"""
+    N = 7
+    z = np.exp(2j * np.pi * np.arange(N) / N)
+    m = np.zeros((N, 3), complex); m[:, 2] = 1
+
+    def rf(m, al, p):
+        a_, p_ = np.deg2rad(al), np.deg2rad(p)
+        mx, my, mz = m[:, 0].real, m[:, 0].imag, m[:, 2].real
+        nx, ny = np.cos(p_), np.sin(p_)
+        nv = nx * mx + ny * my
+        x = mx * np.cos(a_) + ny * mz * np.sin(a_) + nx * nv * (1 - np.cos(a_))
+        y = my * np.cos(a_) - nx * mz * np.sin(a_) + ny * nv * (1 - np.cos(a_))
+        zc = mz * np.cos(a_) + (nx * my - ny * mx) * np.sin(a_)
+        return np.stack([x + 1j * y, x - 1j * y, zc + 0j], axis=1)
+
+    def relax(m):
+        e2 = np.exp(-tau / T2) * np.exp(2j * np.pi * g * tau)
+        e1 = np.exp(-tau / T1)
+        return np.stack([m[:, 0] * e2, m[:, 1] * np.conj(e2), m[:, 2] * e1 + (1 - e1)], axis=1)
+    m = rf(m, a, ph); m = m * np.stack([z, 1 / z, np.ones(N)], axis=1); m = relax(m)
+    m = rf(m, 2 * a, ph + 30); m = m * np.stack([z, 1 / z, np.ones(N)], axis=1); m = relax(m)
+    ks = np.arange(-2, 3)
+    return np.stack([(z[:, None] ** (-ks[None, :]) * m[:, c][:, None]).sum(0) / N for c in range(3)], axis=1)
+
+
+def batched_case(rng):
+    """parameters on two batch axes (epgpy aligns array parameters on the LEFT): T1 of shape (n,) lives on axis 0,
+    the flip angle of shape (1, m) on axis 1; square batches (n == m) are the case where a right-aligned broadcast
+    would not raise"""
+    n = rng.choice([2, 3])
+    m = rng.choice([n, n, rng.choice([2, 3, 4])])
+    return {"T1": [rng.choice([300.0, 500.0, 800.0, 1000.0, 1500.0]) + 10 * i for i in range(n)],
+            "alpha": [rng.choice([30, 60, 90, 120, 150]) + 3 * j for j in range(m)],
+            "T2": rng.choice([[40.0], [40.0 + 7 * i for i in range(n)]]),      # scalar or a second (n,) array on axis 0
+            "ph": rng.choice([0, 45, 90, 210]), "tau": rng.choice([2.0, 5.0, 10.0, 200.0]), "g": rng.choice([0.0, 0.01, -0.02]),
+            "inplace": rng.random() < 0.5}
+
+
+def batched_disagrees(c):
+    import epgpy as epg
+    T1 = np.array(c["T1"]); al = np.array(c["alpha"])[None, :]
+    T2 = c["T2"][0] if len(c["T2"]) == 1 else np.array(c["T2"])
+    seq = [epg.T(al, c["ph"]), epg.S(1), epg.E(c["tau"], T1, T2, c["g"]), epg.T(2 * al, c["ph"] + 30), epg.S(1), epg.E(c["tau"], T1, T2, c["g"])]
+    sm = epg.StateMatrix()
+    for op in seq:
+        sm = op(sm, inplace=c["inplace"])
+    st = np.array(sm.states)
+    n, m = len(c["T1"]), len(c["alpha"])
+    if st.shape != (n, m, 5, 3):
+        return "batched T/S/E sequence: states of shape %s, expected %s" % (st.shape, (n, m, 5, 3))
+    for i in range(n):
+        for j in range(m):
+            ref = tse_reference(c["alpha"][j], c["ph"], c["tau"], c["T1"][i], c["T2"][0] if len(c["T2"]) == 1 else c["T2"][i], c["g"])
+            e = np.abs(ref - st[i, j]).max()
+            if e > 1e-9:
+                return "batch entry (%d, %d) of a T/S/E sequence differs from its Bloch isochromats by %.3g" % (i, j, e)
+    return None
+
+
+def batched_stream(ctx, ncases):
+    import random
+    rng = random.Random(repr((ctx.seed, "C01-batched")))     # own stream: the older streams keep their random sequence
+    shapes = {}
+    for _ in range(ncases):
+        c = batched_case(rng)
+        key = "%dx%d%s" % (len(c["T1"]), len(c["alpha"]), "+T2" if len(c["T2"]) > 1 else "")
+        shapes[key] = shapes.get(key, 0) + 1
+        ctx.count(("batched", json.dumps(c, sort_keys=True)), nontrivial=True)
+        try:
+            why = batched_disagrees(c)
+        except Exception as e:
+            why = "valid batched sequence raises %s: %s" % (type(e).__name__, str(e)[:160])
+        if why:
+            ctx.report(why, {"batched_case": c}, found_input=True, signature={"stream": "batched", "square": len(c["T1"]) == len(c["alpha"])})
+            break
+    ctx.cov["batched_isochromat_shapes"] = shapes
+
+
 def run(ctx):
     proved = ctx.prove(gen=True)
     quick = ctx.tier == "quick"
+    # vectorised real operators against per-entry Bloch isochromats (the shape algebra itself is C07's subject)
+    batched_stream(ctx, 12 if quick else 300)
     # tie no. 3: generated definitions vs implementation numerics
     ents = [e for e in tie.transition_entries() if e[0] in ("rotation_operator", "rotation_alpha", "rotation_phi")]
     ents += [e for e in tie.evolution_entries() if e[0] in ("evolution_operator", "precession_operator", "relaxation_operator")]
@@ -265,6 +347,10 @@ def replay(ctx, rp):
             e = max(abs(coef[c, 0] - f0), abs(coef[c, 2] - z0))
             if e > 1e-9 * (1 + np.abs(coef).max()):
                 why = "simulate() F0/Z0 differ from the ensemble mean by %.3g" % e
+        print("replay:", why or "no discrepancy with the isochromat oracle")
+        return 1 if why else 0
+    if "batched_case" in rp:
+        why = batched_disagrees(rp["batched_case"])
         print("replay:", why or "no discrepancy with the isochromat oracle")
         return 1 if why else 0
     print("replay: not an input replay (%s)" % rp.get("what"))
